@@ -140,6 +140,9 @@ def check_dmrg(case, out, res, fail):
     if out.get('effH_at'):
         fail('effH.to_matrix-differs-from-matvec',
              f'(sweep, i0, move_right, combine, class, relative deviation) = {out["effH_at"]}')
+    if out.get('iso_at'):
+        fail('dmrg.mixed_svd.tensor-moved-into-the-environment-is-not-an-isometry',
+             f'(sweep, i0, move_right, update_LP_RP, tensor, mixer, |T^H T - 1|) = {out["iso_at"]}')
     if out.get('stale_at'):
         fail('dmrg.stale-environment-read', f'(sweep, i0, move_right, dLP, dRP) = {out["stale_at"]}')
     if case['part'] == 'converge':
@@ -154,6 +157,9 @@ def check_dmrg(case, out, res, fail):
 
 def check_infinite(case, out, fail):
     e0 = out['e0']
+    if out.get('iso_at'):
+        fail('dmrg.mixed_svd.tensor-moved-into-the-environment-is-not-an-isometry',
+             f'(sweep, i0, move_right, update_LP_RP, tensor, mixer, |T^H T - 1|) = {out["iso_at"]}')
     if case['part'] == 'vumps':
         if out['E'] < e0 - 1e-8:
             fail('vumps.E-below-exact-energy-density', f'E={out["E"]!r} e0={e0!r}')
